@@ -80,6 +80,8 @@ def out_pieces(s):
             r.append("x\ry")
         elif p == "long":
             r.append("L" * 70000)      # more than a pipe buffer
+        elif p == "mid":
+            r.append("M" * 9000)       # more than one read of ninja (4 KiB), less than a pipe buffer: written in full while ninja is stopped
         elif p == "bracket":
             r.append("[9/9] looks like a status line")
         elif p == "failed":
